@@ -105,15 +105,18 @@ fn stamp_value(src_meta: &std::fs::Metadata) -> Option<String> {
     // v2: sidecars store low-cardinality string columns DICTIONARY-encoded
     // (see build_sidecar) — the version prefix retires every v1 sidecar so
     // mixed formats can never be served.
+    // v3: the mtime is stamped at FULL resolution (nanoseconds). Whole
+    // seconds called a sidecar fresh after a same-length rewrite of the
+    // parquet file within one second; the bump retires every v2 stamp.
     Some(format!(
-        "v2:{}:{}",
+        "v3:{}:{}",
         src_meta.len(),
         src_meta
             .modified()
             .ok()?
             .duration_since(std::time::UNIX_EPOCH)
             .ok()?
-            .as_secs()
+            .as_nanos()
     ))
 }
 
